@@ -153,4 +153,12 @@ def s_add_blackbox(ex, st, recv, args, kw, e):
     return NONE
 
 
-SUMMARIES = {"Circuit.add_blackbox": s_add_blackbox, "Circuit.copy": s_copy, "Circuit.add_subcircuit": s_add_subcircuit}
+def s_relabel(ex, st, recv, args, kw, e):
+    """Circuit.relabel(mapping) = nx.relabel_nodes(self.graph, mapping, copy=False): assumed model of networkx under
+    the obligations emitted at the call (mapping injective on the nodes, keys and values disjoint, new names unused)"""
+    models.used("networkx.relabel_nodes(copy=False)")
+    st.set_g(recv, models.relabel_graph(ex, st, st.g(recv), args[0], e, inplace=True))
+    return NONE
+
+
+SUMMARIES = {"Circuit.relabel": s_relabel, "Circuit.add_blackbox": s_add_blackbox, "Circuit.copy": s_copy, "Circuit.add_subcircuit": s_add_subcircuit}
